@@ -2,19 +2,27 @@
 proof:  Props/SQLGEN.v.  Model/SqlGen.v transcribes every `*_to_near_sql` of data_algebra/sql_model.py (how `using` is defaulted /
         extended / checked, the pruning through columns_used_from_sources, which terms are written, the guards of c520ee9 6f11e66
         2bf9832 a22df8b eb42bd0, the view-name counter, the SQL-level extend merge with its contention test and 05d5f06) and the
-        SQLite join rewrites of SQLite.py into a TYPED NearSQL tree; Model/SqlSem.v gives that tree its SQL meaning; the theorems
-        say: the meaning of the generated tree is the reference semantics (Model/Sem.v, flavour fl_sqlite) of the pipeline,
-        restricted to the columns asked for.
+        SQLite join rewrites of SQLite.py into a TYPED NearSQL tree; Model/SqlSem.v gives that tree its SQL meaning.  Theorems
+        (unbounded over pipelines, tables, requests): for table / select_rows / select / drop / rename / map_columns / order_rows /
+        project / un-windowed extend incl. the SQL-level merge / concat_rows (and windowed extend when the dialect does not merge)
+        the generated query asked for any part C of `using` returns exactly the reference table (Model/Sem.v) restricted to C;
+        the whole query returns every declared column with the reference rows in the reference order; a request for no column
+        keeps the row count; generated view names are pairwise distinct (all node kinds); the pre-c520ee9 / pre-6f11e66
+        generators are refuted.  natural_join is transcribed and tied but its semantic theorem is not proved.
 tie:    (a) STRUCTURAL  the REAL NearSQL object graph from ops.to_near_sql_implementation_ (serialised field by field as C04 does;
             annotation / ops_key left out) must be `erase (to_near ...)`, decided inside Coq (Model/SqlGenCases.v CStruct): view names
             canonicalised by first appearance; terms / container columns / declared dependencies as multisets (Python set iteration);
-            SQL text character for character, the text of each pipeline expression taken from the real expr_to_sql;
+            SQL text character for character, the text of each pipeline expression taken from the real expr_to_sql; with
+            allow_extend_merges on and off;
         (b) BEHAVIOURAL `nsem fl_sqlite` of the MODEL's tree evaluated inside Coq must be the table the REAL SQL text returns from
-            SQLite 3.40.1 on the same tables (CSem) -- this validates Model/SqlSem.v against a real engine;
+            SQLite 3.40.1 on the same tables (CSem) -- this validates Model/SqlSem.v against a real engine (all node kinds, joins
+            and windows included);
         (c) the generated view names of the model tree are pairwise distinct (CDistinct, the theorem evaluated on the corpus).
 oracle: the implementation-level oracle of the property these theorems deepen (Pandas result vs SQLite result) is C01's and is
-        not repeated.  When (a) or (b) breaks, the failing pipeline is shrunk and the real SQL result is compared with the real
-        Pandas result on it (a difference is reported as a failing input; otherwise the break itself is reported)."""
+        not repeated over the whole corpus.  When (a) or (b) breaks, the failing pipelines are ordered (a real Pandas / SQL
+        difference first, smaller first), the three first are shrunk to their smallest failing sub-pipeline (one Coq run over
+        all sub-pipelines) and the real SQL result is compared with the real Pandas result on it: a difference is reported as
+        a failing input of the property; otherwise the break itself is reported (no-failing-input-found)."""
 import glob, json, os, re, time, warnings
 import lib, pipes, semconv, execcorr as X, semstrict as SS
 from lib import clist, cstr, cbool
@@ -147,10 +155,31 @@ def expr_texts(ops, model, acc=None, seen=None):
     return acc
 
 
+_CARRY = None
+
+
+def join_carry():
+    """does _natural_join_sub_queries let an unused side carry one column (the proposed repair)?  Read off the code's behaviour."""
+    global _CARRY
+    if _CARRY is None:
+        try:
+            from data_algebra.data_ops import TableDescription
+            a = TableDescription(table_name="pa", column_names=["x", "y"])
+            b = TableDescription(table_name="pb", column_names=["x", "z"])
+            ops = a.drop_columns(["x"]).natural_join(b, on=[], jointype="CROSS").select_columns(["x", "z"])
+            q = ops.to_near_sql_implementation_(db_model=make_model(True), using=None, temp_id_source=[0])
+            cols = q.sub_sql1.columns
+            _CARRY = cols is not None and len(list(cols)) > 0
+        except Exception:
+            _CARRY = False
+    return _CARRY
+
+
 def dname(merges=True):
-    """the model's dialect constant for the SQLiteModel under test (the FULL-join emulation is used only below SQLite 3.39)"""
+    """the model's dialect record for the SQLiteModel under test: allow_extend_merges, RIGHT join rewritten, FULL join emulated only
+    below SQLite 3.39, unused join side carries a column (probed)"""
     import sqlite3
-    return "d_sqlite" + ("_pre339" if sqlite3.sqlite_version_info < (3, 39, 0) else "") + ("" if merges else "_nomerge")
+    return "(mk_dialect %s true %s %s)" % (cbool(merges), cbool(sqlite3.sqlite_version_info < (3, 39, 0)), cbool(join_carry()))
 
 
 def make_model(merges=True):
@@ -183,6 +212,25 @@ def sem_term(case, res):
     ordered = X.order_is_total(case.script, res)
     return "CSem %s %s %s %s %s %s" % (dname(True), semconv.cop(case.ops), semconv.cenv(case.frames), semconv.ctable(res), cbool(ordered),
                                             cbool(X.defines_column_order(case.script)))
+
+
+def unused_join_side(ops, seen=None):
+    """some natural_join of the DAG is generated with a side none of whose columns is requested (its container has no columns)"""
+    try:
+        q = ops.to_near_sql_implementation_(db_model=make_model(True), using=None, temp_id_source=[0])
+    except Exception:
+        return False
+    import data_algebra.near_sql as ns
+
+    def walk(n):
+        if isinstance(n, ns.NearSQLBinaryStep):
+            if "JOIN" in n.joiner and any(c.columns is not None and len(list(c.columns)) == 0 for c in (n.sub_sql1, n.sub_sql2)):
+                return True
+            return walk(n.sub_sql1.near_sql) or walk(n.sub_sql2.near_sql)
+        if isinstance(n, ns.NearSQLUnaryStep):
+            return walk(n.sub_sql.near_sql)
+        return False
+    return walk(q)
 
 
 def uses_cross(ops, seen=None):
@@ -238,6 +286,12 @@ def own_shapes(rng, tabs):
             out.append({"op": "select_columns", "src": {"op": "project", "src": T1, "ops": {"n": "_size()"}, "group_by": g2}, "columns": ["n", g2[1]]})
             out.append({"op": "extend", "src": T1, "ops": {"r": "_row_number()"}, "partition_by": g2, "order_by": ["uid"], "reverse": ["uid"]})
             out.append({"op": "order_rows", "src": T1, "columns": g2 + ["uid"], "reverse": [g2[1]], "limit": rng.choice([None, 3])})
+    c2 = [c for c, _ in t2["spec"]]
+    shared = [c for c in c1 if c in c2 and c != "uid"]
+    if shared and len(c1) >= 2 and all(dict(t1["spec"])[c] == dict(t2["spec"])[c] for c in shared):
+        # a join side nothing of which is used, with a dropped column the other side also has (finding SQLGEN-join-unused-side-...)
+        out.append({"op": "select_columns", "src": {"op": "natural_join", "src": {"op": "drop_columns", "src": T1, "columns": [shared[0]]}, "b": T2,
+                                                    "on": [], "jointype": "CROSS"}, "columns": [shared[0]]})
     e1 = {"op": "extend", "src": T1, "ops": {"x": f"{a} + 1"}}
     out.append({"op": "extend", "src": {"op": "select_columns", "src": e1, "columns": ["x", "uid"]}, "ops": {"y": "uid + 1"}})
     out.append({"op": "extend", "src": {"op": "drop_columns", "src": e1, "columns": [a]}, "ops": {"y": "uid + 1"}})
@@ -291,8 +345,8 @@ def run(chk):
     chk.prove([], extra_vo=["theories/Model/SqlGenCases.vo"])
     chk.cov["trusted_base"] = [
         "Coq 8.16.1 kernel + vm_compute",
-        "Model/SqlGen.v: hand transcription of the *_to_near_sql methods of sql_model.py and of SQLite.py's join rewrites -- tied to the code by the "
-        "structural correspondence on every run (real NearSQL graph = erase of the model's tree)",
+        "Model/SqlGen.v: hand transcription of the *_to_near_sql methods of sql_model.py and of SQLite.py's join rewrites (and of the two builder "
+        "calls the generator itself makes) -- tied to the code by the structural correspondence on every run (real NearSQL graph = erase of the model's tree)",
         "Model/SqlSem.v: hand semantics of the generated SQL fragment (modelled, not verified) -- tied to SQLite 3.40.1 by the behavioural correspondence "
         "on every run; scalar / aggregate / window primitives are those of Model/Sem.v (eval_expr fl_sqlite, agg_fn, win_fn)",
         "Model/ColumnsUsed.v (C10) for columns_used_from_sources; Model/Sem.v as the reference semantics the theorems compare with",
@@ -301,7 +355,12 @@ def run(chk):
         "the text of a pipeline EXPRESSION (expr_to_sql) is not generated by the model: it is looked up from the real code; that this text means "
         "eval_expr fl_sqlite is C05's theorem about the templates plus the behavioural tie here",
         "annotation and ops_key of NearSQL steps are not modelled (C04 models them); WITH-form / CTE elimination is C04's theorem",
-        "stored tables have exactly the declared columns (wf_env); SELECT-list order built from Python sets is compared as a multiset"]
+        "stored tables have exactly the declared columns (wf_env); SELECT-list order built from Python sets is compared as a multiset",
+        "the semantic theorems cover the fragment `stage1` (see Props/SQLGEN.v): natural_join, windowed extend under SQL-level merging and an id-column "
+        "concat_rows over an un-windowed extend / unlimited order_rows are covered by the two ties only",
+        "the list-based SQL semantics fixes one row order (input order kept by every step but ORDER BY); real engines may return another "
+        "order where SQL leaves it open -- rows are compared as multisets unless the pipeline ends in a total order_rows",
+        "a NATURAL JOIN with jointype CROSS is compared as INNER without ON (same rows); CROSS with keys is skipped"]
     chk.cov["rule"] = ("C01's case stream (random pipelines depth 1..5 over 2 tables, C01's shape families: mergeable / non-mergeable extend chains, pruning, shared "
                        "sub-pipelines, joins of all types, concat of filtered copies, limits, windows re-keyed by the extend below, empty tables) plus own shapes aimed at "
                        "the generator's guards (every output pruned, constant extend over join / concat, final order_rows, merge after a narrowing, id column over an "
@@ -314,6 +373,15 @@ def run(chk):
             cases.append(c)
         except Exception:
             chk.dist("corpus_unreadable")
+    for f in chk.known:                                   # the stored witnesses of the listed findings run on every invocation
+        w = f.get("witness")
+        if isinstance(w, dict) and "script" in w:
+            try:
+                c = X.case_from_json(w)
+                c.stream = "finding_witness"
+                cases.append(c)
+            except Exception:
+                chk.dist("finding_witness_unreadable")
     cases += generate(rng, N[chk.tier])
     terms, index = [], []
     for ci, c in enumerate(cases):
@@ -339,6 +407,17 @@ def run(chk):
         res, err = c.result("sqlite")
         if res is None:
             chk.dist("sqlite_raised")
+            ra, _ = c.result("pandas")
+            if ra is not None:
+                try:
+                    X.eval_backend(c.ops, c.frames, "sqlite")
+                except Exception as ex:          # noqa  (Case.result keeps only the head of the message)
+                    err = f"{type(ex).__name__}: {str(ex)[-200:]}"
+            if ra is not None and "ambiguous column name" in (err or ""):
+                rep = {"kind": "impl-violation", "case": c.json(), "why": "the SQL path raises (%s) where Pandas returns a table" % err,
+                       "pandas": pipes.frame_to_json(ra), "sqlite_error": err, "tie": "sql-raises"}
+                chk.impl_violation("the generated SQL is rejected by SQLite (ambiguous column name) where Pandas returns a table", rep,
+                                   {"tie": "sql-raises", "cause": "ambiguous_column_unused_join_side" if unused_join_side(c.ops) else "ambiguous_column"})
             continue
         try:
             terms.append(sem_term(c, res))
@@ -429,6 +508,32 @@ def still_fails(kind, merges):
     return f
 
 
+def search_tables(rng, case, tries=30):
+    """(case', why) for the pipeline of `case` on freshly drawn rows of the same tables, when some draw makes Pandas and SQL differ"""
+    for _ in range(tries):
+        tabs2 = []
+        for t in case.tabs:
+            spec = [tuple(x) for x in t["spec"]]
+            n = rng.choice([4, 6, 8])
+            rows = []
+            for i in range(n):
+                rows.append([(i if c == "uid" else pipes.gen_value(rng, ty, 0.1)) if True else None for c, ty in spec])
+            if any(c == "uid" for c, _ in spec):
+                perm = list(range(n)); rng.shuffle(perm)
+                j = [c for c, _ in spec].index("uid")
+                for i, r in enumerate(rows):
+                    r[j] = perm[i]
+            tabs2.append(dict(t, rows=rows))
+        try:
+            c2 = X.Case(case.script, tabs2, pipes.build(case.script, {x["name"]: x for x in tabs2}))
+            why = pandas_vs_sqlite(c2)
+            if why:
+                return c2, why
+        except Exception:
+            continue
+    return case, None
+
+
 def report(chk, case, kind, merges):
     what = {"struct": "the real NearSQL graph is not the one Model/SqlGen.v generates (allow_extend_merges=%s)" % merges,
             "sem": "the real SQL text executed on SQLite does not return what Model/SqlSem.v computes for the model's tree",
@@ -440,7 +545,11 @@ def report(chk, case, kind, merges):
         pass
     why = None
     try:
-        why = pandas_vs_sqlite(small) or pandas_vs_sqlite(case)
+        why = pandas_vs_sqlite(small)
+        if not why and pandas_vs_sqlite(case):
+            small, why = case, pandas_vs_sqlite(case)
+        if not why:                      # the same pipeline on fresh random tables
+            small, why = search_tables(chk.rng, small)
     except Exception:
         pass
     detail = {"case": small.json(), "kind": kind, "allow_extend_merges": merges, "generator_error": getattr(small, "gen_error", None)}
